@@ -31,7 +31,7 @@ for v in variants:
             continue
         env = dict(os.environ, PEGSA_REPO=repo, PEGSA_EVIDENCE=os.path.join(d, "ev"))
         for prop in v["property"].split(","):
-            r = subprocess.run([os.path.join(ROOT, "check"), prop], env=env, capture_output=True, text=True)
+            r = subprocess.run([os.path.join(ROOT, "check"), prop], env=env, capture_output=True, text=True, errors='replace')
             out = r.stdout + r.stderr
             hit = r.returncode == 1 and "VIOLATION property=" + prop in out and all(x in out for x in v.get("expect", []))
             print(("ok    " if hit else "MISS  ") + f"{prop} {v['name']}")
